@@ -43,6 +43,15 @@ META = {
         exhaustive="cut offset 0..len(stream) x {EOF, reset} x 9 reader APIs x 2 chunkings, for each enumerated script",
         real=REAL, stub=STUB + RAW, assumptions=COMMON_ASSUME,
     ),
+    "C02": dict(
+        level="exploration",
+        level_text="Seeded simulation of one real endpoint (either role; every negotiated takeover combination, including asymmetric ones reached through foreign offers/responses) running 1-3 concurrent writers (Write / chunked Writer), a pinger and a Close, against a scripted raw peer that records every emitted byte; the frame stream is validated frame by frame by an independent RFC 6455/7692 decoder (masking and key freshness, minimal lengths, control-frame rules, fragment sequencing, RSV bits, inflation under the sender's negotiated takeover flag, Close payload) and the reassembled messages must be an order-preserving interleaving of what was written. Sampling, not proof.",
+        level_note="Trusts the reference codec and compress/flate; mask-key freshness is checked as 'no 4 consecutive equal keys' (false alarm probability 2^-96).",
+        technique="deterministic simulation: seeded schedule of concurrent API calls + simulated transport, wire-level reference-decoder oracle",
+        design_ref="DESIGN.md 6 C02",
+        rule="run = one tape: (role, library mode, negotiated extension parameters, threshold, 1-3 writers x 1-4 messages with boundary-biased sizes and chunk plans, 0-2 pings, Close code/reason and early/late placement, pipe capacity and write chunking, schedule). Non-trivial = every run (at least one message is written); distinct = distinct event-log SHA-256.",
+        real=REAL, stub=STUB + RAW, assumptions=COMMON_ASSUME,
+    ),
 }
 
 NOT_APPLICABLE = [
